@@ -356,6 +356,13 @@ func (c *CCtx) ident(name string) CVal {
 					return CVal{T: smtStr(constant.StringVal(o.Val())), Sort: "String", GoT: o.Type()}
 				}
 			case *types.Var:
+				if isStruct(o.Type()) { // struct-typed package variables live in the object heap at a fixed address
+					ga := "GA_" + sanitize(o.Pkg().Path()+"."+o.Name())
+					c.e.declOnce(fmt.Sprintf("(declare-const %s Int)", ga))
+					c.e.declOnce(fmt.Sprintf("(assert (> %s 0))", ga))
+					srt := c.e.sorts.SortOf(o.Type())
+					return c.val(fmt.Sprintf("(select %s %s)", c.heap(c.e.sorts.HeapObj(srt)), ga), o.Type())
+				}
 				g := "G_" + sanitize(o.Pkg().Path()+"."+o.Name())
 				if v, ok := c.st.globals[g]; ok {
 					return c.val(v, o.Type())
